@@ -678,7 +678,18 @@ class Channel(BaseChannel):
                 if channel_response and hidden_input is not True:
                     buf += self._read_until_input(channel_input=bytes_channel_input)
                 self.send_return()
-                buf += self._read_until_explicit_prompt(prompts=prompts)
+                event_buf = self._read_until_explicit_prompt(prompts=prompts)
+                buf += event_buf
+
+                if self._interaction_complete(
+                    read_buf=event_buf,
+                    channel_response=channel_response,
+                    interaction_complete_patterns=interaction_complete_patterns,
+                ):
+                    # one of the interaction complete patterns was seen instead of the response we
+                    # expected -- the interactive "session" is over, do not send remaining inputs
+                    self.logger.debug("interaction complete pattern seen, ending interaction")
+                    break
 
         processed_buf += self._process_output(
             buf=buf,
